@@ -49,11 +49,25 @@ func newRegistry(unified bool) domain.ModelRegistry {
 	return r
 }
 
+// digestMode decides what the listings of a history say about digests, because that decides
+// what the unifier merges: 0 = a digest per (name, salt); 1 = no details at all (names that
+// differ only in case unify); 2 = one digest per first letter (differently named models
+// unify because their digests agree).
+var digestMode atomic.Int32
+
 func mi(names []string, digestSalt int) []*domain.ModelInfo {
 	out := make([]*domain.ModelInfo, 0, len(names))
 	for _, n := range names {
-		d := fmt.Sprintf("sha256:%s-%d", n, digestSalt)
-		out = append(out, &domain.ModelInfo{Name: n, LastSeen: time.Now(), Details: &domain.ModelDetails{Digest: &d}})
+		switch digestMode.Load() {
+		case 1:
+			out = append(out, &domain.ModelInfo{Name: n, LastSeen: time.Now()})
+		case 2:
+			d := "sha256:group-" + strings.ToLower(n[:1])
+			out = append(out, &domain.ModelInfo{Name: n, LastSeen: time.Now(), Details: &domain.ModelDetails{Digest: &d}})
+		default:
+			d := fmt.Sprintf("sha256:%s-%d", n, digestSalt)
+			out = append(out, &domain.ModelInfo{Name: n, LastSeen: time.Now(), Details: &domain.ModelDetails{Digest: &d}})
+		}
 	}
 	return out
 }
@@ -202,7 +216,9 @@ func compare(run *rep.Run, ctx context.Context, r domain.ModelRegistry, ref map[
 				}
 			}
 		}
-		if _, isUnified := r.(unifiedReg); isUnified && subset(want, got) && subset(got, permitted) {
+		// ... but only when no endpoint lists the name as spelled: then the lookup falls back to
+		// the aliases. When some endpoint does list it, the lookup is exactly those endpoints.
+		if _, isUnified := r.(unifiedReg); isUnified && subset(want, got) && subset(got, permitted) && (len(want) == 0 || len(got) == len(want)) {
 			if av := r.IsModelAvailable(ctx, m); len(want) > 0 && !av || len(permitted) == 0 && av {
 				run.Violation("C10/"+kind+"/is-model-available/after-"+lastOp, fmt.Sprintf("IsModelAvailable(%q) = %v, endpoints listing it: %v (case-insensitively: %v)", m, av, want, permitted), wit(map[string]any{"model": m}))
 			}
@@ -232,16 +248,25 @@ func compare(run *rep.Run, ctx context.Context, r domain.ModelRegistry, ref map[
 	}
 	if u, ok := r.(unifiedReg); ok {
 		ms, _ := u.GetUnifiedModels(ctx)
+		// without digests the unifier merges names that differ only in letter case into one
+		// model, and a unified model names each source endpoint once: there the catalogue is
+		// compared per (endpoint, name folded to lower case)
+		fold := func(n string) string {
+			if digestMode.Load() == 1 {
+				return strings.ToLower(n)
+			}
+			return n
+		}
 		got := map[string]bool{}
 		for _, m := range ms {
 			for _, s := range m.SourceEndpoints {
-				got[s.EndpointURL+" | "+s.NativeName] = true
+				got[s.EndpointURL+" | "+fold(s.NativeName)] = true
 			}
 		}
 		want := map[string]bool{}
 		for e, s := range ref {
 			for m := range s {
-				want[e+" | "+m] = true
+				want[e+" | "+fold(m)] = true
 			}
 		}
 		var stale, missing []string
@@ -567,6 +592,7 @@ func TestC10(t *testing.T) {
 		nSeq = rep.Pick(150, 2000)
 	}
 	for h := 0; h < nSeq; h++ {
+		digestMode.Store(int32((h / 6) % 2))
 		sequentialHistory(run, rng, h%3 != 0, h%2 == 0, h)
 	}
 	nConc := rep.Pick(200, 5000)
@@ -574,8 +600,10 @@ func TestC10(t *testing.T) {
 		nConc = rep.Pick(80, 800)
 	}
 	for h := 0; h < nConc; h++ {
+		digestMode.Store(int32(h % 2))
 		concurrentHistory(run, rng, h)
 	}
+	digestMode.Store(0)
 	filterDifferential(run, rng)
 	throughStack(run, rng)
 	run.Count("settles_that_found_background_unification_pending", settlesThatWaited.Load())
